@@ -33,6 +33,7 @@ structure RawLayer where
   exclude : Option (List String) := none
   ids : List String := []
   cacheNames : Option (List String) := none
+  inverses : List RawField := []
   deriving Repr, Inhabited
 
 def rekey (args : List String) : List String := args.map fun a => if isPrivate a then a else "id"
@@ -62,14 +63,19 @@ def RawLayer.toLayer (r : RawLayer) (index : Nat) : Layer :=
       params := (r.params.map fun p => (p.name, Param.fn p.f p.args)) ++ r.consts.map fun (n, v) => (n, .const v)
       opt := (r.fields.filter (·.opt)).map (·.name)
       persistent := []
-      inherit := inh, inheritIsList := isList, cacheNames := none }
+      inherit := inh, inheritIsList := isList, cacheNames := none
+      inverses := r.inverses.map fun fl => (fl.name, Def.fn fl.f fl.args)
+      -- `normalize_inherit(forward_inherit, backward_outputs)`: a list stays as it is, `True` and `__exclude__`
+      -- lose the names that have their own inverse
+      backInherit := if isList then inh else inh.diff (.fin (r.inverses.map (·.name))) }
   | "apply" =>
     { index, kind := .apply
       defs := r.fields.map fun fl => (fl.name, Def.fn fl.f [fl.name])
-      params := [], opt := [], persistent := [], inherit := .all, inheritIsList := false, cacheNames := none }
+      params := [], opt := [], persistent := [], inherit := .all, inheritIsList := false, cacheNames := none,
+      backInherit := .all }
   | _ =>
     { index, kind := .cache, defs := [], params := [], opt := [], persistent := [], inherit := .all,
-      inheritIsList := false, cacheNames := r.cacheNames }
+      inheritIsList := false, cacheNames := r.cacheNames, backInherit := .all }
 
 def layersOf (rs : List RawLayer) : List Layer := rs.zipIdx.map fun (r, i) => r.toLayer i
 
